@@ -497,6 +497,42 @@ func runRLLB(x *X) {
 		}
 		x.Probe("empty-first-xff-element")
 	}
+	// 5. the limiter in front of a flapping circuit breaker: whatever state the breaker is in, a
+	// client is forwarded no more often than its bucket allows (a second balancer: limiter with an
+	// hour-long refill, breaker that opens on the first failure and retries every second, one
+	// backend that always answers 500)
+	if !x.dead && c.Intn(3, "limiter-before-flapping-breaker") == 0 {
+		net5 := newStubNet(x)
+		b5 := net5.add("solo", x.BackendHost(6, 9), "")
+		b5.mode = "s500"
+		m5 := 1 + c.Intn(3, "m5")
+		var h5 *lbHarness
+		x.Do("setup5", func() {
+			h5, _ = newLBHarness(x, net5, lbOpts{strategy: strategy, backends: []config.BackendConfig{{Name: "solo", Address: "http://" + b5.host, Weight: 1}},
+				limiter: &config.RateLimitConfig{Enabled: true, MaxTokens: m5, RefillRate: 3600},
+				breaker: &config.CircuitBreakerConfig{Enabled: true, MaxRequests: 1, IntervalSeconds: 30, TimeoutSeconds: 1, FailureThreshold: 1, SuccessThreshold: 1}})
+		}, onErr)
+		if h5 != nil {
+			var sts []int
+			for k := 0; k < m5+6 && !x.dead; k++ {
+				var r simResult
+				x.Do("req", func() { r = h5.do(reqSpec{client: "203.0.113.99"}) }, onErr)
+				sts = append(sts, r.status)
+				x.Advance(1100*time.Millisecond, onErr)
+			}
+			forwarded := 0
+			for _, e := range net5.snapshot() {
+				if e.kind == "dispatch" {
+					forwarded++
+				}
+			}
+			if !x.dead && forwarded > m5+1 {
+				x.Violate("C09", "C09/bound-exceeded{breaker-flapping}", "one client, max_tokens %d, refill 1h: %d requests were forwarded to the backend within %ds while the circuit breaker flapped (statuses %v)", m5, forwarded, (m5+6)*11/10, sts)
+			}
+			x.Probe("limiter-before-flapping-breaker")
+			x.Do("stop5", func() { h5.lb.Stop() }, onErr)
+		}
+	}
 	if left := s.Teardown(); left > 0 {
 		x.Probe("teardown-left")
 	}
